@@ -5,6 +5,9 @@
      n      number of candidate configuration-file paths of the platform (ordered 1..n)
      exist  subset of 1..n: which candidate files exist
      key    [1..n -> [Settings -> {"present", "absent", "commented"}]]   content of each file
+     body   [1..n -> {"plain", "empty", "blank"}]   how an existing file is written: "empty" = 0 bytes (only if
+            all its keys are absent), "blank" = nothing but whitespace and comment lines (no key present),
+            "plain" otherwise.  A file EXISTS whatever its content: Resolve does not look at body.
      env    [Settings -> BOOLEAN]            NDN_CLIENT_TRANSPORT / _PIB / _TPM set?
      loc    [Stores -> LocClass]             the location carried by every non-default value of that store
      defx   [Stores -> Seq(BOOLEAN)]         which of the platform's default locations exist (ordered)
@@ -31,6 +34,8 @@ LocClasses == {"none", "absE", "absM", "relE", "relM", "relCwd", "relOther"}
 \* only in stage C: an absolute existing location whose name contains ':' (like every Windows path)
 LocClassesC == LocClasses \cup {"absEc"}
 
+BodiesAllowed(ks) == {"plain"} \cup (IF \A s \in Settings : ks[s] = "absent" THEN {"empty"} ELSE {})
+                                \cup (IF \A s \in Settings : ks[s] # "present" THEN {"blank"} ELSE {})
 Src(k, i) == [k |-> k, i |-> i]
 MinOf(S) == CHOOSE a \in S : \A b \in S : a <= b
 FirstExisting(c) == IF c.exist = {} THEN 0 ELSE MinOf(c.exist)
@@ -113,6 +118,13 @@ P_RelativeNextToFile(c, r) ==
 P_MissingFallsBackToDefault(c, r) ==
   \A s \in Stores : ((r[s].src.k = "def" \/ c.loc[s] \in {"none", "absM", "relM", "relOther"} \/ (c.loc[s] = "relE" /\ c.exist = {}))
                      /\ DefIdx(c, s) # 0) => r[s].where = {W("default", DefIdx(c, s))}
+\* "the first existing configuration file": existence counts, not content - an existing file that is
+\* empty or holds only comments still shadows every later candidate
+P_ContentClassIrrelevant(c, r) ==
+  LET f == FirstExisting(c) IN
+  (f # 0 /\ c.body[f] \in {"empty", "blank"}) =>
+     \A s \in Settings : LET w == IF s = "transport" THEN r.transport ELSE r[s].src IN
+                         w = IF c.env[s] THEN Src("env", 0) ELSE Src("def", 0)
 P_Face(u, f) == /\ (u.scheme = "unix") => (f.k = "unix" /\ f.addr = u.path)
                 /\ (u.scheme \in {"tcp", "tcp4", "tcp6"}) => (f.k = "tcp" /\ f.addr = u.addr)
                 /\ (u.scheme \in {"udp", "udp4", "udp6"}) => (f.k = "udp" /\ f.addr = u.addr)
